@@ -125,8 +125,11 @@ def janitor(max_age_s=1800):
         names = os.listdir(base)
     except OSError:
         return
+    import re
+
     for n in names:
-        if n.startswith("rtverif-"):
+        # only directories this machinery creates itself (mkdtemp names), never a scratch copy of the repository
+        if n.startswith("rtverif-batch-") or re.match(r"^rtverif-[a-z0-9_]{8}$", n):
             p = os.path.join(base, n)
             try:
                 if now - os.path.getmtime(p) > max_age_s:
